@@ -14,7 +14,10 @@ GROUPS = {
     "phase": dict(
         crate="zksync_consensus_roles",
         splice=[("libs/roles/src/validator/messages/v2/consensus.rs", "kani/phase.rs")],
-        harnesses=[dict(name="phase_roundtrip", kind="complete", timeout=1200)],
+        stubbing=True,
+        harnesses=[dict(name="phase_roundtrip", kind="complete", timeout=1200),
+                   dict(name="view_roundtrip", kind="complete", timeout=1800),
+                   dict(name="replica_commit_roundtrip", kind="complete", timeout=1800)],
     ),
     "std_conv": dict(
         crate="zksync_protobuf",
